@@ -100,7 +100,15 @@ fn large_hashmap_digest(which: usize, set: u64) -> Result<Vec<u64>, String> {
     let wtab = [0.3, 0.5, 1.0, 1.0, 1.5, 2.0, 3.0, 4.5, 7.0, 11.0, 16.0, 40.0, 250.0];
     let base = 7_000_000 * (set + 1);
     crate::common::guarded_mut(move || {
-        let hm: HashMap<u64, f64> = (0..nitems).map(|i| (base + i, wtab[(crate::common::splitmix64(base + i) % 13) as usize])).collect();
+        // two weight regimes: 13 classes spread over three decades, and 13 classes within one decade (order-dependent
+        // pruning is most visible when many items have comparable weights)
+        let narrow = set % 4 >= 2;
+        let hm: HashMap<u64, f64> = (0..nitems)
+            .map(|i| {
+                let c = (crate::common::splitmix64(base + i) % 13) as usize;
+                (base + i, if narrow { 1. + c as f64 * 0.75 } else { wtab[c] })
+            })
+            .collect();
         match which {
             0 => {
                 let mut h = ProbMinHash3a::<u64, FnvHasher>::new(256, u64::MAX);
@@ -129,12 +137,12 @@ fn large_hashmap_digest(which: usize, set: u64) -> Result<Vec<u64>, String> {
 const LARGE_NAMES: [&str; 4] = ["ProbMinHash3a(HashMap)", "ProbMinHash3(HashMap)", "ProbMinHash2(HashMap)", "ProbMinHash3aSha(HashMap)"];
 
 fn check_large_hashmaps(ctx: &Ctx, st: &mut Stats) {
-    let nsets = ctx.pick(40u64, 200);
+    // (an order-dependent pruning rule shows on roughly one 2000-item set in seven: 80 such sets leave no room for luck)
+    let nsets = ctx.pick(800u64, 2000);
     for which in 0..4usize {
         let ns = if which == 3 { nsets / 4 } else { nsets };
-        for set in 0..ns {
-            let a = large_hashmap_digest(which, set);
-            let b = large_hashmap_digest(which, set);
+        let pairs: Vec<(u64, Result<Vec<u64>, String>, Result<Vec<u64>, String>)> = (0..ns).into_par_iter().map(|set| (set, large_hashmap_digest(which, set), large_hashmap_digest(which, set))).collect();
+        for (set, a, b) in pairs {
             st.calls += 2;
             if a != b {
                 ctx.violation(
@@ -443,7 +451,7 @@ pub fn run(ctx: &Ctx) -> i32 {
     let coverage = json!({
         "evaluations": st.interleavings + st.thread_rounds + st.process_lines,
         "distinct_nontrivial": st.distinct_obs.len(),
-        "rule": "for every sketcher type x parameterisation of the catalogue (all 9 sketcher types, several sizes/register types/entry points): ALL interleavings at call granularity of the call sequences (construction included) of 2 instances x 4-5 steps and 3 instances x 3-4 steps, same input and different inputs, each instance compared with its solo run; then 40 (200) weighted sets of 2000 items through the std-HashMap entry points of the four ProbMinHash variants on two instances each (independent iteration orders; also part of the process digests); then 20 (100) rounds of 2..16 free-running threads (sampling, not exhaustive); then the slice entry point of both f32 densified sketchers on a 300000-item slice whose minimum is a tie between two items, 38 runs under rayon pools of 1, 2, 4, 16 workers against the sequential item-wise result (sampling); then 8 (32) process launches whose digests must agree bit for bit (HashMap entry points included); distinct = distinct solo results",
+        "rule": "for every sketcher type x parameterisation of the catalogue (all 9 sketcher types, several sizes/register types/entry points): ALL interleavings at call granularity of the call sequences (construction included) of 2 instances x 4-5 steps and 3 instances x 3-4 steps, same input and different inputs, each instance compared with its solo run; then 800 (2000) weighted sets of 2000 items through the std-HashMap entry points of the four ProbMinHash variants on two instances each (independent iteration orders; also part of the process digests); then 20 (100) rounds of 2..16 free-running threads (sampling, not exhaustive); then the slice entry point of both f32 densified sketchers on a 300000-item slice whose minimum is a tie between two items, 38 runs under rayon pools of 1, 2, 4, 16 workers against the sequential item-wise result (sampling); then 8 (32) process launches whose digests must agree bit for bit (HashMap entry points included); distinct = distinct solo results",
         "samples": [
             {"interleaving": {"sketcher": "ProbOrdMinHash2 m=16 l=2", "n": 2, "order": [0, 1, 1, 0, 0, 1, 1, 0]}},
             {"script": format!("{:?}", script(0))},
